@@ -6,9 +6,9 @@ GROUPS = {
  'classes': ('dcmmeta.py: get_valid_classes, get_multiplicity',
    [('get_valid_classes_is_model', 'get_valid_classes_eq'), ('get_valid_classes_refuses', 'get_valid_classes_refuses'),
     ('get_multiplicity_is_model', 'get_multiplicity_eq')]),
- 'simplify': ('dcmmeta.py: _get_const_period, is_constant, is_repeating',
+ 'simplify': ('dcmmeta.py: _simplify, _get_const_period, is_constant, is_repeating',
    [('is_constant_is_model', 'is_constant_eq'), ('is_repeating_is_model', 'is_repeating_eq'),
-    ('get_const_period_is_model', 'get_const_period_eq')]),
+    ('get_const_period_is_model', 'get_const_period_eq'), ('simplify_is_model', 'simplify_eq')]),
  'lookup': ('dcmmeta.py: NiftiWrapper.meta_valid, get_meta index arithmetic',
    [('get_meta_index_is_model', 'get_meta_index_eq'), ('meta_valid_is_model', 'meta_valid_eq')]),
  'valid': ('dcmmeta.py: DcmMetaExtension.check_valid', [('check_valid_is_model', 'check_valid_eq')]),
